@@ -114,16 +114,19 @@ func c09RunTimed(c *c09Case, limit time.Duration) (panicked interface{}, err err
 
 func c09Run(c c09Case) []*core.Violation {
 	rec := core.Rec("C09")
-	p, err, timedOut := c09RunTimed(&c, 20*time.Second)
+	p, err, timedOut := c09RunTimed(&c, 10*time.Second)
 	if timedOut {
 		// must repeat in isolation before it is reported
-		for i := 0; i < 3; i++ {
-			if _, _, again := c09RunTimed(&c, 20*time.Second); !again {
+		for i := 0; i < 2; i++ {
+			if _, _, again := c09RunTimed(&c, 10*time.Second); !again {
 				rec.AddExtra("unrepeatable_timeouts", 1)
 				return nil
 			}
 		}
-		return []*core.Violation{core.V("no-termination", "parsing did not return within 20 s (reader %s) on a %d-byte input", c.Reader, len(c.Doc))}
+		// the abandoned parser goroutines keep spinning: report and leave the process at once
+		v := core.V("no-termination", "parsing did not return within 10 s, three times in a row (reader %s), on a %d-byte input", c.Reader, len(c.Doc))
+		v.Fatal = true
+		return []*core.Violation{v}
 	}
 	if p != nil {
 		return []*core.Violation{core.V("panic", "EML parsing panicked (reader %s): %v", c.Reader, p)}
@@ -181,8 +184,8 @@ func c09Gen(t *rapid.T) c09Case {
 func c09Describe() {
 	rec := core.Rec("C09")
 	rec.Rule = "inputs from three sources: (1) a grammar-based generator of EML documents (header lists with valid and broken addresses/dates/encoded-words; single-part and nested multipart bodies up to depth 3, all transfer encodings, file parts with quoted/unquoted/missing/extra Content-Disposition parameters, reused boundaries, missing close delimiters), (2) renderings of generated go-mail messages, (3) arbitrary bytes; each followed by 0..6 structure-aware mutations (parameter value emptied / unquoted / half-quoted / oversized, truncation at any byte, range deletion, line duplication, CRLF->LF/CR, insertion of hostile header constants, header name without value, transfer encodings swapped, boundary damage, byte flips); reader behaviours: whole buffer, string entry point, 1-byte reads, error at offset k (with data), (n>0, EOF) together, up to 50 leading (0, nil) reads. Thorough adds native coverage-guided fuzzing of EMLToMsgFromReader seeded with the repository's testdata/*.eml and a dictionary of the hostile constants. " +
-		"Oracle: the call returns (message or error) without panic and within 20 s (a time-out must repeat three times in isolation). Non-trivial: the input has a multipart content type with a boundary parameter or a Content-Disposition field, i.e. reaches the multipart / attachment code. Distinct by (input hash, reader)."
-	rec.Assumptions = []string{"inputs are at most 64 KiB", "termination is observed with a generous wall-clock bound, not proved"}
+		"Oracle: the call returns (message or error) without panic and within 10 s (three orders of magnitude above the normal run time; a time-out must repeat three times in a row). Non-trivial: the input has a multipart content type with a boundary parameter or a Content-Disposition field, i.e. reaches the multipart / attachment code. Distinct by (input hash, reader)."
+	rec.Assumptions = []string{"inputs are at most 64 KiB", "termination is observed with a generous wall-clock bound (10 s for inputs <= 64 KiB), not proved"}
 }
 
 func TestC09(t *testing.T) {
